@@ -10,7 +10,8 @@ EXPLANATION = (
     "awaited are tokio Mutex::lock futures of the other global (topic_handles); awaiting anything whose completion depends on a peer or on one "
     "topic's router (Sender::send into the bounded registration queue, stream I/O) is a violation; evaluated for handle_stream, "
     "Server::shutdown's lock order, and (thorough, --all-features) do_cloud_auth; (D2) every topic gets its own router task and its own "
-    "channel: pair() results are spawned / inserted per topic and routers hold no Arc/static shared state. The >100-registrations race itself "
+    "channel: pair() results are spawned / inserted per topic and routers hold no Arc/static shared state; (D5) neither router's poll can go round for ever without consuming anything (PollAI K6): "
+    "a poll that never returns Pending never yields its runtime worker to the other topics. The >100-registrations race itself "
     "and QUIC flow control are NOT decided.")
 ASSUMPTIONS = ["tokio::sync::Mutex::lock on topic_handles completes without waiting for a peer (its holders never await peers — checked for the functions analysed)"]
 
